@@ -419,10 +419,10 @@ def provenance(chk, op):
                 w = writer.get(key)
                 if w is not None and _protocol_stripped(w):
                     stripped = f"{ea.qualname} writes {key!r} <- {norm(w)} (protocol stripped); {fi.qualname} feeds it to {r.fq}"
-                    fkey = f"encode_array:{key}<-{norm(w)}|{fi.qualname}:{r.fq.split('.')[-1]}"
+                    fkey = f"encode_array:{key}<-{_rootless(w)}|{fi.qualname}:{r.fq.split('.')[-1]}"
             elif _protocol_stripped(arg):
                 stripped = f"{fi.qualname} feeds the protocol-stripped path {norm(arg)} to {r.fq}"
-                fkey = f"{fi.qualname}:{norm(arg)}|{r.fq.split('.')[-1]}"
+                fkey = f"{fi.qualname}:{_rootless(arg)}|{r.fq.split('.')[-1]}"
             if stripped:
                 chk.fail("C07-F1", where, stripped + ": a product on a non-local filesystem is reopened on the local disk", key=fkey)
             else:
@@ -436,6 +436,17 @@ def provenance(chk, op):
             ok = kw.get("fs") == "mapper.fs" and kw.get("path") == "mapper.root"
     chk.require(ok, "C07-F1", op.where(oi), "uncached path: fs = DirFileSystem(path=mapper.root, fs=mapper.fs) derives from the live mapper",
                 "uncached path does not build its filesystem from the live mapper", key="open_image:dirfs")
+
+
+def _rootless(e):
+    """attribute chain without the name of the variable it starts from (keys of findings survive a renamed local)"""
+    t = norm(e)
+    root = e
+    while isinstance(root, (ast.Attribute, ast.Subscript, ast.Call)):
+        root = root.value if not isinstance(root, ast.Call) else root.func
+    if isinstance(root, ast.Name) and t.startswith(root.id):
+        return "<x>" + t[len(root.id):]
+    return t
 
 
 def _protocol_stripped(e):
